@@ -32,10 +32,6 @@ export { generateHashFromString, generateHashFromNumbers } from "./hash.js";
 const JSON_PROTO = Object.getPrototypeOf({});
 
 function deepmergeConstructor(options: any) {
-  function isNotPrototypeKey(value: any) {
-    return value !== "constructor" && value !== "prototype" && value !== "__proto__";
-  }
-
   function cloneArray(value: any) {
     let i = 0;
     const il = value.length;
@@ -55,9 +51,11 @@ function deepmergeConstructor(options: any) {
 
     const targetKeys = getKeys(target);
     let i, il, key;
+    // (own keys named constructor, prototype or __proto__ are data like any other: they are written as own
+    // properties, never through the prototype chain)
     for (i = 0, il = targetKeys.length; i < il; ++i) {
-      //@ts-ignore
-      isNotPrototypeKey((key = targetKeys[i])) && (result[key] = clone(target[key]));
+      key = targetKeys[i];
+      setOwnProperty(result, key, clone(target[key]));
     }
     return result;
   }
@@ -145,34 +143,25 @@ function deepmergeConstructor(options: any) {
     const sourceKeys = getKeys(source);
     let i, il, key;
     for (i = 0, il = targetKeys.length; i < il; ++i) {
-      isNotPrototypeKey((key = targetKeys[i])) &&
-        sourceKeys.indexOf(key) === -1 &&
-        // @ts-ignore
-        (result[key] = clone(target[key]));
+      key = targetKeys[i];
+      sourceKeys.indexOf(key) === -1 && setOwnProperty(result, key, clone(target[key]));
     }
 
     for (i = 0, il = sourceKeys.length; i < il; ++i) {
-      if (!isNotPrototypeKey((key = sourceKeys[i]))) {
-        continue;
-      }
-
-      if (key in target) {
-        if (targetKeys.indexOf(key) !== -1) {
-          if (
-            cloneProtoObject &&
-            isMergeableObject(source[key]) &&
-            Object.getPrototypeOf(source[key]) !== JSON_PROTO
-          ) {
-            // @ts-ignore
-            result[key] = cloneProtoObject(source[key]);
-          } else {
-            // @ts-ignore
-            result[key] = _deepmerge(target[key], source[key]);
-          }
+      key = sourceKeys[i];
+      // (own keys only: `key in target` would also find constructor, toString, ... on the prototype)
+      if (targetKeys.indexOf(key) !== -1) {
+        if (
+          cloneProtoObject &&
+          isMergeableObject(source[key]) &&
+          Object.getPrototypeOf(source[key]) !== JSON_PROTO
+        ) {
+          setOwnProperty(result, key, cloneProtoObject(source[key]));
+        } else {
+          setOwnProperty(result, key, _deepmerge(target[key], source[key]));
         }
       } else {
-        // @ts-ignore
-        result[key] = clone(source[key]);
+        setOwnProperty(result, key, clone(source[key]));
       }
     }
     return result;
